@@ -248,6 +248,45 @@ func ruleArithGuard(c *Ctx) []Obligation {
 	const R = "ARITH.GUARD"
 	var obs []Obligation
 	res := c.Fn("yang.(*Type).resolve")
+	// Outside the numeric helpers: any sign-changing conversion of a Number's magnitude, wherever it
+	// is written (a caller that inlines Number.Int must guard like Number.Int).
+	if num := c.Named("yang", "Number"); num != nil {
+		fValue := FieldVar(num, "Value")
+		for _, fn := range c.Funcs {
+			if fn.Pkg == nil || c.Types[fn.Pkg.Pkg.Path()] == nil || arithScope(c, fn) {
+				continue
+			}
+			seenM := map[string]int{}
+			eachInstr(fn, func(in ssa.Instruction) {
+				cv, isCv := in.(*ssa.Convert)
+				if !isCv {
+					return
+				}
+				from, to := basicName(cv.X.Type()), basicName(cv.Type())
+				if !((from == "uint64" || from == "uint") && (to == "int64" || to == "int" || to == "int32")) {
+					return
+				}
+				if !derivesFrom(cv.X, func(x ssa.Value) bool { _, f, _ := fieldOf(x); return f == fValue && fValue != nil }) {
+					return
+				}
+				base := fmt.Sprintf("%s: convert %s→%s of a Number magnitude", c.FnName(fn), from, to)
+				seenM[base]++
+				con := base
+				if seenM[base] > 1 {
+					con = fmt.Sprintf("%s #%d", base, seenM[base])
+				}
+				verdict, why := convertBoundExact(cv)
+				switch {
+				case verdict > 0:
+					obs = append(obs, ok(R, con, c.InstrPos(in), why))
+				case verdict < 0:
+					obs = append(obs, bad(R, con, c.InstrPos(in), why))
+				default:
+					obs = append(obs, bad(R, con, c.InstrPos(in), "the magnitude of a Number (any uint64) is converted to a signed integer with no dominating bound: values of 2^63 and above wrap to the other sign silently (Number.Int is the checked conversion)"))
+				}
+			})
+		}
+	}
 	for _, fn := range c.Funcs {
 		if !arithScope(c, fn) && fn != res {
 			continue
